@@ -36,45 +36,174 @@ var solvers = []solverSpec{
 	}, true},
 }
 
-// qfVariant weakens a script to its quantifier-free part.
+// qfVariant weakens a script to its quantifier-free part: quantified assumptions
+// are dropped, except that axioms of the shape (forall xs (! body :pattern (f ...)))
+// are instantiated (two rounds) on the ground applications of f that occur in the
+// rest of the script — a finite subset of their instances, so still a weakening.
 func qfVariant(src string) string {
-	var keep []string
+	var keep, dropped []string
 	for _, l := range strings.Split(src, "\n") {
-		if strings.Contains(l, "(forall ") || strings.Contains(l, "(exists ") || strings.Contains(l, "(lambda ") {
+		if strings.HasPrefix(l, "(get-value") || strings.HasPrefix(l, "(get-model") {
 			continue
 		}
-		if strings.HasPrefix(l, "(get-value") || strings.HasPrefix(l, "(get-model") {
+		if strings.Contains(l, "(forall ") || strings.Contains(l, "(exists ") || strings.Contains(l, "(lambda ") {
+			dropped = append(dropped, l)
 			continue
 		}
 		keep = append(keep, l)
 	}
 	txt := strings.Join(keep, "\n")
-	seen := map[string]bool{}
-	var facts []string
-	for i := 0; ; {
-		j := strings.Index(txt[i:], "(ix ")
-		if j < 0 {
-			break
-		}
-		j += i
-		n := parseSx(txt[j:])
-		i = j + 1
-		if n == nil || len(n.kids) != 3 {
-			continue
-		}
-		t := txt[j : j+n.e]
-		if seen[t] {
-			continue
-		}
-		seen[t] = true
-		a, b := txt[j+n.kids[1].s:j+n.kids[1].e], txt[j+n.kids[2].s:j+n.kids[2].e]
-		facts = append(facts, "(assert (= "+t+" (bvadd "+a+" "+b+")))")
-	}
 	k := strings.LastIndex(txt, "(check-sat)")
 	if k < 0 {
 		return ""
 	}
-	return txt[:k] + strings.Join(facts, "\n") + "\n(check-sat-using (then simplify propagate-values solve-eqs elim-uncnstr simplify bit-blast sat))\n"
+	head := txt[:k]
+	var axioms []*groundAxiom
+	for _, d := range dropped {
+		if a := parseGroundAxiom(d); a != nil {
+			axioms = append(axioms, a)
+		}
+	}
+	seen := map[string]bool{}
+	var facts []string
+	scan := head
+	for round := 0; round < 2; round++ {
+		var fresh []string
+		for _, a := range axioms {
+			for _, inst := range a.instances(scan, seen) {
+				fresh = append(fresh, "(assert "+inst+")")
+			}
+			if len(facts)+len(fresh) > 4000 {
+				break
+			}
+		}
+		if len(fresh) == 0 {
+			break
+		}
+		facts = append(facts, fresh...)
+		scan = strings.Join(fresh, "\n")
+	}
+	return head + strings.Join(facts, "\n") + "\n(check-sat-using (then simplify propagate-values solve-eqs elim-uncnstr simplify bit-blast sat))\n"
+}
+
+type groundAxiom struct {
+	vars map[string]bool
+	body *sx
+	pat  *sx
+	src  string
+}
+
+// parseGroundAxiom accepts (assert (forall (binders) (! body :pattern (p)))) with a single-term pattern.
+func parseGroundAxiom(line string) *groundAxiom {
+	root := parseSx(line)
+	if root == nil || len(root.kids) != 2 || root.kids[0].atom != "assert" {
+		return nil
+	}
+	q := root.kids[1]
+	if len(q.kids) != 3 || q.kids[0].atom != "forall" {
+		return nil
+	}
+	bang := q.kids[2]
+	if len(bang.kids) < 4 || bang.kids[0].atom != "!" {
+		return nil
+	}
+	a := &groundAxiom{vars: map[string]bool{}, body: bang.kids[1], src: line}
+	for _, b := range q.kids[1].kids {
+		if len(b.kids) == 2 {
+			a.vars[b.kids[0].atom] = true
+		}
+	}
+	for i := 2; i+1 < len(bang.kids); i += 2 {
+		if bang.kids[i].atom == ":pattern" && len(bang.kids[i+1].kids) == 1 && a.pat == nil {
+			a.pat = bang.kids[i+1].kids[0]
+		}
+	}
+	if a.pat == nil || len(a.pat.kids) == 0 || a.pat.kids[0].atom == "" {
+		return nil
+	}
+	if strings.Contains(line[a.body.s:a.body.e], "(forall ") || strings.Contains(line[a.body.s:a.body.e], "(exists ") {
+		return nil
+	}
+	// every bound variable must occur in the pattern
+	pt := line[a.pat.s:a.pat.e]
+	for v := range a.vars {
+		if !strings.Contains(pt, v) {
+			return nil
+		}
+	}
+	return a
+}
+
+func normWS(s string) string { return strings.Join(strings.Fields(s), " ") }
+
+func (a *groundAxiom) instances(text string, seen map[string]bool) []string {
+	head := a.pat.kids[0].atom
+	var out []string
+	needle := "(" + head + " "
+	for i := 0; ; {
+		j := strings.Index(text[i:], needle)
+		if j < 0 {
+			break
+		}
+		j += i
+		i = j + 1
+		app := parseSx(text[j:])
+		if app == nil || len(app.kids) != len(a.pat.kids) {
+			continue
+		}
+		at := text[j : j+app.e]
+		bind := map[string]string{}
+		if !a.match(a.pat, app, at, bind) {
+			continue
+		}
+		key := a.src[:min(len(a.src), 80)] + "|" + normWS(at)
+		if seen[key] {
+			continue
+		}
+		seen[key] = true
+		out = append(out, a.subst(a.body, bind))
+		if len(out) > 400 {
+			break
+		}
+	}
+	return out
+}
+
+func (a *groundAxiom) match(p, t *sx, ttext string, bind map[string]string) bool {
+	if p.atom != "" {
+		tt := normWS(ttext[t.s:t.e])
+		if a.vars[p.atom] {
+			if b, ok := bind[p.atom]; ok {
+				return b == tt
+			}
+			bind[p.atom] = tt
+			return true
+		}
+		return t.atom == p.atom
+	}
+	if t.atom != "" || len(t.kids) != len(p.kids) {
+		return false
+	}
+	for i := range p.kids {
+		if !a.match(p.kids[i], t.kids[i], ttext, bind) {
+			return false
+		}
+	}
+	return true
+}
+
+func (a *groundAxiom) subst(n *sx, bind map[string]string) string {
+	if n.atom != "" {
+		if b, ok := bind[n.atom]; ok {
+			return b
+		}
+		return n.atom
+	}
+	parts := make([]string, len(n.kids))
+	for i, k := range n.kids {
+		parts[i] = a.subst(k, bind)
+	}
+	return "(" + strings.Join(parts, " ") + ")"
 }
 
 type solveResult struct {
@@ -245,6 +374,8 @@ func dischargeAll(results []*FuncResult, opts solveOpts) {
 				default:
 					j.o.Status = "undecided"
 				}
+			case "smoke-dead":
+				j.o.Status = "declared-infeasible-" + r.Verdict
 			case "smoke-path":
 				if r.Verdict == "unsat" {
 					j.o.Status = "infeasible-path"
@@ -258,7 +389,7 @@ func dischargeAll(results []*FuncResult, opts solveOpts) {
 					j.o.Status = "ok-" + r.Verdict
 				}
 			}
-			if j.o.Status == "discharged" || strings.HasPrefix(j.o.Status, "ok-") || j.o.Status == "infeasible-path" {
+			if j.o.Status == "discharged" || strings.HasPrefix(j.o.Status, "ok-") || j.o.Status == "infeasible-path" || strings.HasPrefix(j.o.Status, "declared-infeasible") {
 				os.Remove(file)
 			} else {
 				j.o.Output += "\nscript: " + file
